@@ -209,6 +209,15 @@ func (P *point) Neg(A kyber.Point) kyber.Point {
 func (P *point) Mul(s kyber.Scalar, A kyber.Point) kyber.Point {
 
 	a := &s.(*scalar).v
+	if a[31] > 127 {
+		// geScalarMult and geScalarMultBase require a[31] <= 127. A scalar set by
+		// UnmarshalBinary holds any 32 bytes: reduce it modulo the group order first.
+		var wide [64]byte
+		var red [32]byte
+		copy(wide[:], a[:])
+		scReduce(&red, &wide)
+		a = &red
+	}
 
 	if A == nil {
 		geScalarMultBase(&P.ge, a)
